@@ -285,8 +285,9 @@ func c03Ext(toks []c03Tok, o c03Opts, stub bool) string {
 // ---------- document generator ----------
 
 type c03Gen struct {
-	r  *h.RNG
-	sb *strings.Builder
+	r      *h.RNG
+	sb     *strings.Builder
+	inForm bool
 	// feature switches: constructs under an open known finding can be avoided to exercise the rest
 	rich bool
 }
@@ -370,6 +371,9 @@ func (g *c03Gen) attrs(tag string) {
 		}
 		if used[name] { // duplicate attributes are a parse error
 			continue
+		}
+		if tag == "meta" && (name == "name" && used["http-equiv"] || name == "http-equiv" && used["name"]) {
+			continue // a meta element is either a named or a pragma one
 		}
 		used[name] = true
 		if g.r.Chance(5) {
@@ -580,9 +584,15 @@ func (g *c03Gen) flow(d int) {
 			}
 		case k < 8 && d > 0:
 			t := g.r.Pick(c03Flow)
+			if t == "form" && g.inForm {
+				t = "div" // a form inside a form is not conforming (the parser ignores the inner start tag)
+			}
+			was := g.inForm
+			g.inForm = g.inForm || t == "form"
 			g.open(t)
 			g.flow(d - 1)
 			g.close(t)
+			g.inForm = was
 		case k < 10:
 			t := g.r.Pick(c03Headings)
 			g.open(t)
@@ -904,8 +914,8 @@ func c03DiffAt(a, b []byte) string {
 // which oracle signatures a document-level trigger can explain
 var c03TrigSigs = map[string]string{
 	"crlf": "attr-value text-words text-space", "hexoverflow": "text-words attr-value",
-	"endomit": "*", "colgroup": "*", "textjoin": "text-words", // a changed tree shifts every later comparison
-	"rawstyle": "raw-text text-space text-words element-structure", "prekept": "raw-text",
+	"colgroup": "*", "textjoin": "text-words", // a changed tree shifts every later comparison
+	"rawstyle": "raw-text text-space text-words element-structure",
 }
 
 func c03Explains(trigs []string, sig string) string {
@@ -920,7 +930,7 @@ func c03Explains(trigs []string, sig string) string {
 }
 
 var c03KnownOfTrig = map[string]string{"hexoverflow": "K-C03-3", "colgroup": "K-C03-6", "textjoin": "K-C03-8", "rawstyle": "K-C03-11",
-	"crlf": "K-C03-13", "endomit": "K-C03-14", "prekept": "K-C03-15"}
+	"crlf": "K-C03-13"}
 
 func c03StageDom(c *Ctx, docs [][]byte, names []string, allMasks bool) error {
 	st := c.R.StartStage("dom", "PROPERTY ORACLE independent of the model: input and real html.Minify output (registry without sub-minifiers) parsed by golang.org/x/net/html and compared modulo the documented changes (comments; whitespace that cannot render, judged with the HTML standard's display classes; droppable default/empty attributes; attribute value normalisations) on generated conforming documents, the fixed snippet corpus (all 32 Keep* combinations), /repo/tests/html/corpus and /repo/_benchmarks; a difference is a failing input unless the document falls under the trigger of an open known finding that explains the difference class; non-trivial = output differs from input")
@@ -1019,7 +1029,7 @@ func c03ReplayKnown(c *Ctx) error {
 		if k.Status == "fixed" && k.ReplayStr("kind") == "dom" {
 			// regression: the input of a fixed finding must parse back to the same document
 			in := []byte(k.ReplayStr("input"))
-			for mask := 0; mask < 128; mask += 4 {
+			for mask := 0; mask < 128; mask += 2 { // every combination except KeepComments
 				o := c03OptsOf(mask)
 				out, err, crash := c03RunReal(in, o, false)
 				if crash != "" || err != nil {
